@@ -359,10 +359,6 @@ func TestC12(t *testing.T) {
 		}
 	}
 	sort.Ints(mine)
-	// the baseline class always runs (shard 0)
-	if rec.Shard() == 0 {
-		mine = append(mine, len(cs)-1)
-	}
 	var wg sync.WaitGroup
 	sem := make(chan struct{}, 3)
 	for _, ci := range mine {
